@@ -181,7 +181,13 @@ class Interp:
             fr = Frame(mod)
             v = self.eval(ent.value, fr)
             if isinstance(ent, ast.Assign) and isinstance(ent.targets[0], ast.Tuple):
-                raise OutOfSubset('module-level tuple assignment')
+                names = [e.id for e in ent.targets[0].elts if isinstance(e, ast.Name)]
+                items = self.iterate(v)
+                if len(names) != len(items) or name not in names:
+                    raise OutOfSubset('module-level tuple assignment')
+                for n2, x in zip(names, items):
+                    self.ctx.globals[f'{mod.name}.{n2}'] = x
+                return self.ctx.globals[qn]
             self.ctx.globals[qn] = v
             return v
         raise OutOfSubset(f'module entry {name}')
@@ -632,6 +638,14 @@ class Interp:
             self.exec_block(node.body, fr)
         except ReturnSignal as r:
             return r.value
+        except OutOfSubset as e:
+            if not getattr(e, 'annotated', False):
+                e.args = (f'{e.args[0] if e.args else ""} [in {func.qual}]',)
+                e.annotated = 1
+            elif e.annotated < 4:
+                e.args = (f'{e.args[0]} <- {func.qual}',)
+                e.annotated += 1
+            raise
         finally:
             self.depth -= 1
         return None
